@@ -74,48 +74,67 @@ theorem serial (c : Cfg) (hw : c.workers = 1) (s : S) (h : Reachable c s) : Seri
   | init => simp [Serial]
   | step s s' hr st ih => exact serial_step c hw s s' (bounds c s hr) ih st
 
-/-- the recovery handler has been called for exactly the panicking tasks that have finished (once each) -/
-def Recovered (s : S) : Prop := ∀ id, s.recovered.count id = if id ∈ s.pan then s.finished.count id else 0
+/-- the recovery handler — if one is installed — has been called for exactly the panicking tasks that have finished (once
+    each); without a handler nothing is recorded -/
+def Recovered (c : Cfg) (s : S) : Prop :=
+  ∀ id, s.recovered.count id = if c.handler = true ∧ id ∈ s.pan then s.finished.count id else 0
 
-theorem recovered_step (c : Cfg) (s s' : S) (hc : Conservation s) (h : Recovered s) (st : Step c s s') : Recovered s' := by
+theorem recovered_step (c : Cfg) (s s' : S) (hc : Conservation s) (h : Recovered c s) (st : Step c s s') :
+    Recovered c s' := by
   intro id
   have hid := h id
-  cases st <;> (try dsimp only [doSubmit, doTake, doFinish, doReport, doReady] at *) <;> (try exact hid)
-  case submit p h1 h2 =>
-    cases p
-    · simpa using hid
-    · by_cases e : id = s.nextId
-      · -- a new id: nothing with this id has finished or been reported
-        have hcons := hc id
-        simp only [places, List.count_append] at hcons
-        have hlt : ¬ id < s.nextId := by omega
-        simp only [hlt, if_false] at hcons
-        have hf : s.finished.count id = 0 := by omega
-        have hr : s.recovered.count id = 0 := by
-          rw [hid]; split
-          · exact hf
-          · rfl
-        simp [e] at hf hr ⊢
-        omega
-      · have : (id ∈ s.nextId :: s.pan) ↔ id ∈ s.pan := by simp [e]
-        simp only [if_true, this]
-        exact hid
-  case finish t ht =>
-    by_cases e : id = t
-    · subst e
-      by_cases hp : id ∈ s.pan
-      · simp [hp] at hid ⊢; omega
-      · simp [hp] at hid ⊢; exact hid
-    · have e' : (t == id) = false := by simpa using fun h => e h.symm
-      by_cases hp : t ∈ s.pan
-      · simp only [hp, if_true, List.count_cons, e'] at hid ⊢
-        simpa using hid
-      · simp only [hp, if_false, List.count_cons, e'] at hid ⊢
-        simpa using hid
+  cases hh : c.handler
+  · -- no handler: `recovered` never grows
+    simp only [hh, Bool.false_eq_true, false_and, if_false] at hid ⊢
+    cases st <;> (try dsimp only [doSubmit, doTake, doFinish, doReport, doReady] at *) <;> (try exact hid)
+    case finish t ht => simp only [hh, Bool.false_eq_true, false_and, if_false]; exact hid
+  · simp only [hh, true_and] at hid ⊢
+    cases st <;> (try dsimp only [doSubmit, doTake, doFinish, doReport, doReady] at *) <;> (try exact hid)
+    case submit p h1 h2 =>
+      cases p
+      · simpa using hid
+      · by_cases e : id = s.nextId
+        · -- a new id: nothing with this id has finished or been reported
+          have hcons := hc id
+          simp only [places, List.count_append] at hcons
+          have hlt : ¬ id < s.nextId := by omega
+          simp only [hlt, if_false] at hcons
+          have hf : s.finished.count id = 0 := by omega
+          have hr : s.recovered.count id = 0 := by
+            rw [hid]; split
+            · exact hf
+            · rfl
+          simp [e] at hf hr ⊢
+          omega
+        · have : (id ∈ s.nextId :: s.pan) ↔ id ∈ s.pan := by simp [e]
+          simp only [if_true, this]
+          exact hid
+    case finish t ht =>
+      simp only [hh, true_and]
+      by_cases e : id = t
+      · subst e
+        by_cases hp : id ∈ s.pan
+        · simp [hp] at hid ⊢; omega
+        · simp [hp] at hid ⊢; exact hid
+      · have e' : (t == id) = false := by simpa using fun h => e h.symm
+        by_cases hp : t ∈ s.pan
+        · simp only [hp, if_true, List.count_cons, e'] at hid ⊢
+          simpa using hid
+        · simp only [hp, if_false, List.count_cons, e'] at hid ⊢
+          simpa using hid
 
-theorem recovered_inv (c : Cfg) (s : S) (h : Reachable c s) : Recovered s := by
+theorem recovered_inv (c : Cfg) (s : S) (h : Reachable c s) : Recovered c s := by
   induction h with
   | init => intro id; simp
   | step s s' hr st ih => exact recovered_step c s s' (conservation c s hr) ih st
+
+/-- without a handler there are no handler calls -/
+theorem recovered_nil_of_no_handler (c : Cfg) (hh : c.handler = false) (s : S) (h : Reachable c s) : s.recovered = [] := by
+  have := recovered_inv c s h
+  apply List.eq_nil_iff_forall_not_mem.mpr
+  intro id hmem
+  have h1 := this id
+  simp only [hh, Bool.false_eq_true, false_and, if_false] at h1
+  exact absurd hmem (List.count_eq_zero.mp h1)
 
 end TQ
